@@ -323,6 +323,9 @@ thread_local! { static STATS: std::cell::RefCell<(u64, u64)> = std::cell::RefCel
 #[test]
 fn verif_estimator() {
     let job = util::job();
+    if util::s(&job, "mode") == "steer_cases" {
+        return steer_cases(&job);
+    }
     assert_eq!(util::s(&job, "mode"), "replay");
     let walks = util::read_ndjson(&util::s(&job, "input"));
     let mut out = util::NdjsonOut::create(&util::s(&job, "output"));
@@ -336,5 +339,65 @@ fn verif_estimator() {
     // statistics line (not a walk result): how often the mock clocks were steered
     std::fs::write(format!("{}.stats", util::s(&job, "output")), json!({"set_frequency_calls": sf, "step_clock_calls": sc, "steer_relations_evaluated": STEER.with(|x| x.borrow().0), "steer_relations_skipped_degenerate": STEER.with(|x| x.borrow().1),
         "steer_relations_nontrivial_system_clock": NONTRIV1.with(|x| x.get()), "steer_relations_nontrivial_other_clocks": NONTRIV.with(|x| x.get())}).to_string()).unwrap();
+    out.finish();
+}
+
+
+// ------------------------------------------------------------------------------------------------------------------
+// spec/SteerCases.tla: the steering decision on a confidently measured offset (first measurement of a fresh controller
+// over an untracked link to a trusted external clock).  Observed: which clock call is made, the frequency set, and
+// by how much the controller's own frequency estimate moves.
+// ------------------------------------------------------------------------------------------------------------------
+fn steer_cases(job: &Value) {
+    let cases = util::read_ndjson(&util::s(job, "input"));
+    let mut out = util::NdjsonOut::create(&util::s(job, "output"));
+    for (n, c) in cases.iter().enumerate() {
+        let offset = util::i(c, "o") as f64 * 1e-5;
+        let max = util::i(c, "m") as f64 * 1e-6;
+        let r = util::catch(|| -> Result<Value, AlgoError> {
+            let sys = MockClock(Arc::new(Mutex::new(ClockState { now: ts(T0), drift: 0.0, steer: 0.0, max, calls: vec![] })));
+            let mut cfg = third_arg(Ctl::new);
+            cfg.select_offset_uncertainty_window = 3.0;
+            cfg.select_link_uncertainty_window = 3.0;
+            cfg.select_delay_uncertainty_window = 1.0;
+            cfg.select_max_window_size = 1.0;
+            cfg.minimum_agreeing_sources = 1;
+            let (ctl, system) = Ctl::new(sys.clone(), 1e-8, cfg)?;
+            let ctl = Arc::new(ctl);
+            let external = ctl.add_external_clock()?;
+            let link: Link = Ctl::create_untracked_link(ctl.clone(), external, system)?;
+            link.external_data_update(Duration::from_f64_seconds(0.0), None, true)?;
+            { let mut st = sys.0.lock().unwrap(); st.now = st.now + Duration::from_f64_seconds(1.0); }
+            let now = sys.now().unwrap();
+            let before = ctl.clock_frequency(system)?.value;
+            link.measurement(Measurement { send_timestamp: now - Duration::from_f64_seconds(offset), recv_timestamp: now,
+                                           uncertainty: Duration::from_f64_seconds(1e-7) }, Direction::Forward)?;
+            let after = ctl.clock_frequency(system)?.value;
+            let calls = sys.0.lock().unwrap().calls.clone();
+            Ok(json!({"before": before, "after": after, "calls": calls.iter().map(|k| match k {
+                Call::Step(x) => json!({"step": x}), Call::SetFreq(f) => json!({"freq": f}) }).collect::<Vec<_>>()}))
+        });
+        let mut fields: Vec<String> = vec![];
+        let mut obs = json!({});
+        match r {
+            Err(p) => { fields.push("panic".into()); obs = json!({"panic": p}); }
+            Ok(Err(e)) => { fields.push("out.res".into()); obs = json!({"error": err_name(&e)}); }
+            Ok(Ok(o)) => {
+                let calls = o["calls"].as_array().unwrap();
+                let kind = util::s(c, "kind");
+                let want = util::i(c, "applied") as f64 * 1e-9;
+                if calls.len() != 1 { fields.push("out.steercalls".into()); }
+                else if let Some(f) = calls[0].get("freq").and_then(|x| x.as_f64()) {
+                    if kind == "step" { fields.push("out.kind".into()); }
+                    if f.abs() > max { fields.push("out.fmax".into()); }
+                    if (f - want).abs() > 1e-12 + 1e-9 * want.abs() { fields.push("out.applied".into()); }
+                    let moved = o["after"].as_f64().unwrap() - o["before"].as_f64().unwrap();
+                    if (moved - f).abs() > 1e-12 + 1e-9 * f.abs() { fields.push("out.dfreq".into()); }
+                } else if kind != "step" { fields.push("out.kind".into()); }
+                obs = o;
+            }
+        }
+        out.put(&json!({"id": n, "case": c, "fields": fields, "observed": obs}));
+    }
     out.finish();
 }
